@@ -356,9 +356,12 @@ def case_strategy(draw, max_ops, sweep=False):
     # time becomes the CURRENT time, wherever it stood
     out = []
     for o in prog:
-        out.append(o)
         if o["op"] == "force_ts" and o.get("k") in MUST["definition"] and draw(st.booleans()):
+            o = dict(o, which="updated", time=draw(st.sampled_from([4000000000, 4102444800, 2147483648, 1610000000, 5, 0])))
+            out.append(o)
             out.append({"op": "set", "k": o["k"], "t": o["t"], "attr": "definition", "val": "after-force", "how": "name"})
+        else:
+            out.append(o)
     prog = out
     dts = draw(st.lists(st.sampled_from([0, 1, 1, 2, 3600, 1000000]), min_size=1, max_size=7))
     return {"auto": draw(st.booleans()) if not sweep else draw(st.sampled_from([True, True, False])),
